@@ -57,8 +57,12 @@ type Obj struct {
 	// Spare: 1 + the original length of an input slice's backing array once an append aliased it (stores at
 	// or beyond that index land in spare capacity and change nothing a reader of the object can see); 0 = none
 	Spare int
-	ID    int
-	T     types.Type // static type of an input root object (for the write monitor)
+	// Published: a reference to this object (created during the run) has been stored into memory of the
+	// linted object - e.g. zcrypto's per-certificate parse caches.  Later stores into it by zlint code change
+	// what every subsequent reader of the certificate sees.
+	Published bool
+	ID        int
+	T         types.Type // static type of an input root object (for the write monitor)
 	// StrOrigin: the array was created by []byte(s) for this string and has
 	// not been written since (string(b) then gives s back).
 	StrOrigin *StrV
